@@ -9,8 +9,8 @@ from sa.refactor_fuzz import FILE_PROPS, functions
 rel, lineno = sys.argv[1], int(sys.argv[2]); kind = sys.argv[3] if len(sys.argv) > 3 else "del"
 src = open(os.path.join("/repo", rel)).read()
 for q, fn in functions(ast.parse(src)):
-    for k, st in ms.simple_statements(fn):
-        if k == kind and st.lineno == lineno:
+    for k, st in ms.sites(fn, kind):
+        if ms.site_line(k, st) == lineno:
             new = ms.make(src, kind, st)
             for p in FILE_PROPS[rel]:
                 code, ctx = run_property(p, "/repo", "quick", overrides={rel: new}, quiet=False, write_evidence=False, known=[])
